@@ -1,11 +1,11 @@
 import LunarVerif.Model.C10
 /-
 Property C10 over the OBSERVABLE history only: the events a harness around the real queue sees
-(clock ticks, result of each Enqueue's locked section, "r is now blocked in select", which waiters a
-roll-over released, which TTL timers fired, which Enqueue calls returned what).  The observer
-re-builds, from the events alone, each request's phase, the grant instants and the window for which
-the queue was last served.  Nothing of the queue's hidden state (heap, counter, window end, timer)
-appears here.  Only `Cfg`, `Req`, `Phase`, `Ev`, `keyLt` and list helpers are shared with the model.
+(clock ticks, result of each Enqueue's locked section and the waiters it served, "r entered its
+select", which waiters a roll-over handed off, which TTL timers fired, which Enqueue calls returned
+what).  The observer re-builds, from the events alone, each request's phase and the grant instants.
+Nothing of the queue's hidden state (heap, counter, window end, timer) appears here.  Only `Cfg`,
+`Req`, `Phase`, `Ev`, `keyLt` and list helpers are shared with the model.
 -/
 namespace LunarVerif.C10
 
@@ -13,77 +13,83 @@ structure Obs where
   now    : Nat
   reqs   : List Req
   grants : List Nat   -- instants of every grant (immediate pass or hand-off)
-  served : Nat        -- window index of construction / of the latest roll-over
 deriving Repr, DecidableEq
 
-def Obs.init (cfg : Cfg) (t0 : Nat) : Obs := ⟨t0, [], [], t0 / cfg.win⟩
+def Obs.init (_cfg : Cfg) (t0 : Nat) : Obs := ⟨t0, [], []⟩
 
 /-- Grants whose instant lies in aligned window `w`. -/
 def grantsIn (cfg : Cfg) (w : Nat) (grants : List Nat) : Nat := grants.countP (fun t => t / cfg.win == w)
 
-def setAll (reqs : List Req) (ph : Phase) : List Nat → List Req
+/-- Hand-off to each request of the list, in order. -/
+def handAll (reqs : List Req) : List Nat → List Req
   | [] => reqs
-  | r :: rs => setAll (setPhase reqs r ph) ph rs
+  | r :: rs => handAll (setPhase reqs r (phaseOf reqs r).handoff) rs
 
-def obsStep (cfg : Cfg) (o : Obs) : Ev → Obs
+/-- Phase of a request after it entered its select at instant `now`. -/
+def parkPhase (now : Nat) (q : Req) : Phase :=
+  match q.ph with
+  | .gapDone => .wokeDone
+  | _ => .parked (now + q.ttl)
+
+def obsStep (_cfg : Cfg) (o : Obs) : Ev → Obs
   | .tick d => { o with now := o.now + d }
-  | .enq p ttl .pass => { o with reqs := o.reqs ++ [⟨p, o.now, ttl, .passed⟩], grants := o.now :: o.grants }
-  | .enq p ttl .full => { o with reqs := o.reqs ++ [⟨p, o.now, ttl, .full⟩] }
-  | .enq p ttl .push => { o with reqs := o.reqs ++ [⟨p, o.now, ttl, .gap⟩] }
-  | .park r => { o with reqs := setPhase o.reqs r (.parked (o.now + (getReq o.reqs r).ttl)) }
-  | .roll rel => { o with reqs := setAll o.reqs .wokeDone rel,
-                          grants := rel.map (fun _ => o.now) ++ o.grants,
-                          served := o.now / cfg.win }
+  | .enq p ttl .pass rel => { o with reqs := handAll o.reqs rel ++ [⟨p, o.now, ttl, .passed⟩],
+                                     grants := o.now :: (rel.map (fun _ => o.now) ++ o.grants) }
+  | .enq p ttl .full rel => { o with reqs := handAll o.reqs rel ++ [⟨p, o.now, ttl, .full⟩],
+                                     grants := rel.map (fun _ => o.now) ++ o.grants }
+  | .enq p ttl .push rel => { o with reqs := handAll o.reqs rel ++ [⟨p, o.now, ttl, .gap⟩],
+                                     grants := rel.map (fun _ => o.now) ++ o.grants }
+  | .park r => { o with reqs := setPhase o.reqs r (parkPhase o.now (getReq o.reqs r)) }
+  | .roll rel => { o with reqs := handAll o.reqs rel, grants := rel.map (fun _ => o.now) ++ o.grants }
   | .expire r => { o with reqs := setPhase o.reqs r .wokeTTL }
   | .finish r ok => { o with reqs := setPhase o.reqs r (if ok then .retT else .retF) }
 
 /-- ids of the requests still waiting for their turn (pushed, neither handed off nor expired). -/
-def liveIds (reqs : List Req) : List Nat := (List.range reqs.length).filter (fun i => (phaseOf reqs i).live)
+def eligIds (reqs : List Req) : List Nat :=
+  (List.range reqs.length).filter (fun i => (phaseOf reqs i).eligible)
 
-def gapIds (reqs : List Req) : List Nat := (List.range reqs.length).filter (fun i => phaseOf reqs i == .gap)
+/-- Safety of one batch of hand-offs: only waiting requests, each once, within the window quota. -/
+def relSafe (cfg : Cfg) (o : Obs) (rel : List Nat) : Bool :=
+  rel.all (fun a => (phaseOf o.reqs a).eligible) && decide rel.Nodup &&
+  decide (grantsIn cfg (o.now / cfg.win) o.grants + rel.length ≤ cfg.quota)
 
-/-- SAFETY part — claimed for every schedule:
-    releases per aligned window ≤ quota; waiters ≤ size; a request is rejected only when the queue is
-    full (and the window quota used up) or when its TTL really elapsed; well-formedness of the events. -/
+/-- Fairness of one batch of hand-offs: no waiting request with a strictly better key than a
+    released one stays behind, and either every waiting request was released or the quota is used up. -/
+def relFair (cfg : Cfg) (o : Obs) (rel : List Nat) : Bool :=
+  (eligIds o.reqs).all (fun b => rel.contains b ||
+      rel.all (fun a => !keyLt (getReq o.reqs b) (getReq o.reqs a))) &&
+  ((eligIds o.reqs).all (fun b => rel.contains b) ||
+    decide (grantsIn cfg (o.now / cfg.win) o.grants + rel.length = cfg.quota))
+
+/-- SAFETY part: releases per aligned window ≤ quota; waiters ≤ size; a request is rejected only
+    when the queue is full (and the window quota used up) or when its TTL really elapsed and no
+    hand-off reached it; well-formedness of the events. -/
 def safeOk (cfg : Cfg) (o : Obs) : Ev → Bool
   | .tick _ => true
-  | .enq _ _ .pass => decide (grantsIn cfg (o.now / cfg.win) o.grants < cfg.quota)
-  | .enq _ _ .full => decide (cfg.quota ≤ grantsIn cfg (o.now / cfg.win) o.grants) &&
-                      decide (cfg.size ≤ waitingCount o.reqs)
-  | .enq _ _ .push => decide (cfg.quota ≤ grantsIn cfg (o.now / cfg.win) o.grants) &&
-                      decide (waitingCount o.reqs < cfg.size)
-  | .park r => phaseOf o.reqs r == .gap
-  | .roll rel => rel.all (fun a => (phaseOf o.reqs a).isParked) && decide rel.Nodup &&
-                 decide (grantsIn cfg (o.now / cfg.win) o.grants + rel.length ≤ cfg.quota)
+  | .enq _ _ .pass rel => relSafe cfg o rel &&
+      decide (grantsIn cfg (o.now / cfg.win) o.grants + rel.length < cfg.quota)
+  | .enq _ _ .full rel => relSafe cfg o rel &&
+      decide (cfg.quota ≤ grantsIn cfg (o.now / cfg.win) o.grants + rel.length) &&
+      decide (cfg.size ≤ waitingCount o.reqs)
+  | .enq _ _ .push rel => relSafe cfg o rel &&
+      decide (cfg.quota ≤ grantsIn cfg (o.now / cfg.win) o.grants + rel.length) &&
+      decide (waitingCount o.reqs < cfg.size)
+  | .park r => phaseOf o.reqs r == .gap || phaseOf o.reqs r == .gapDone
+  | .roll rel => relSafe cfg o rel
   | .expire r => match phaseOf o.reqs r with
                  | .parked dl => decide (dl ≤ o.now)
                  | _ => false
-  | .finish r ok => if ok then phaseOf o.reqs r == .wokeDone else phaseOf o.reqs r == .wokeTTL
+  | .finish r ok => if ok then phaseOf o.reqs r == .wokeDone || phaseOf o.reqs r == .wokeTTLDone
+                    else phaseOf o.reqs r == .wokeTTL
 
-/-- FAIRNESS part (order and no stranding) at full strength:
-    * a newcomer takes a slot at once only when nobody is waiting for a turn;
-    * a roll-over never releases `a` while a waiting `b` with a strictly better key stays behind;
-    * after a roll-over either every waiting request was released or the window quota is used up. -/
+/-- FAIRNESS part (order and no stranding): every batch of hand-offs — by a roll-over or by an
+    Enqueue serving the waiters before the newcomer — is fair.  Together with the safety clause of
+    `pass` (quota not used up after the batch) this means: a newcomer takes a slot at once only when
+    nobody is left waiting. -/
 def fairOk (cfg : Cfg) (o : Obs) : Ev → Bool
-  | .enq _ _ .pass => (liveIds o.reqs).isEmpty
-  | .roll rel =>
-    (liveIds o.reqs).all (fun b => rel.contains b ||
-        rel.all (fun a => !keyLt (getReq o.reqs b) (getReq o.reqs a))) &&
-    ((liveIds o.reqs).all (fun b => rel.contains b) ||
-      decide (grantsIn cfg (o.now / cfg.win) o.grants + rel.length = cfg.quota))
+  | .enq _ _ _ rel => relFair cfg o rel
+  | .roll rel => relFair cfg o rel
   | _ => true
-
-/-- Class of finding F10a (lost hand-off): a roll-over ran while some pushed request was still
-    between the unlock and the `select`. -/
-def f10aEv (o : Obs) : Ev → Bool
-  | .roll _ => !(gapIds o.reqs).isEmpty
-  | _ => false
-
-/-- Class of finding F10b (late roll-over): a newcomer took a slot while requests were waiting and the
-    roll-over of the current window had not run yet. -/
-def f10bEv (cfg : Cfg) (o : Obs) : Ev → Bool
-  | .enq _ _ .pass => !(liveIds o.reqs).isEmpty && (o.served != o.now / cfg.win)
-  | _ => false
 
 def safeFrom (cfg : Cfg) : Obs → List Ev → Bool
   | _, [] => true
@@ -93,29 +99,35 @@ def fairFrom (cfg : Cfg) : Obs → List Ev → Bool
   | _, [] => true
   | o, e :: es => fairOk cfg o e && fairFrom cfg (obsStep cfg o e) es
 
-/-- No event of the history (oldest first) falls in the class of F10a / F10b. -/
-def cleanFrom (cfg : Cfg) : Obs → List Ev → Bool
-  | _, [] => true
-  | o, e :: es => !f10aEv o e && !f10bEv cfg o e && cleanFrom cfg (obsStep cfg o e) es
-
 /-- The whole property on a history given oldest first. -/
 def holds (cfg : Cfg) (t0 : Nat) (es : List Ev) : Bool :=
   safeFrom cfg (Obs.init cfg t0) es && fairFrom cfg (Obs.init cfg t0) es
 
 def safe (cfg : Cfg) (t0 : Nat) (es : List Ev) : Bool := safeFrom cfg (Obs.init cfg t0) es
 def fair (cfg : Cfg) (t0 : Nat) (es : List Ev) : Bool := fairFrom cfg (Obs.init cfg t0) es
-def clean (cfg : Cfg) (t0 : Nat) (es : List Ev) : Bool := cleanFrom cfg (Obs.init cfg t0) es
 
 /-- Verdict for the judge: `none` = holds; `some (finding, index, what)` for the first offending
-    event.  A fairness failure is attributed to F10b when the event itself is a late-roll-over
-    overtaking, else to F10a when a roll-over with a request in the gap happened at or before it. -/
-def firstFail (cfg : Cfg) : Obs → List Ev → Nat → Bool → Option (String × Nat × String)
-  | _, [], _, _ => none
-  | o, e :: es, i, a =>
-    let a' := a || f10aEv o e
+    event (no open finding class is left for C10: the finding id is always `-`). -/
+def firstFail (cfg : Cfg) : Obs → List Ev → Nat → Option (String × Nat × String)
+  | _, [], _ => none
+  | o, e :: es, i =>
     if !safeOk cfg o e then some ("-", i, "safety")
-    else if !fairOk cfg o e then
-      some (if f10bEv cfg o e then "F10b" else if a' then "F10a" else "-", i, "fairness")
-    else firstFail cfg (obsStep cfg o e) es (i + 1) a'
+    else if !fairOk cfg o e then some ("-", i, "fairness")
+    else firstFail cfg (obsStep cfg o e) es (i + 1)
+
+/-- Plugin level (`StrategyBasedQueuePlugin`): `k` concurrent FIRST requests for one fresh remedy
+    key at one instant.  Observables: queues created for the key, requests answered NoOp at once,
+    requests left waiting, requests answered 429.  One queue per key; its window quota and size hold;
+    nobody is rejected unless the queue is full and the quota used up. -/
+def burstOk (cfg : Cfg) (k created pass wait rej : Nat) : Bool :=
+  decide (created = 1) && decide (pass ≤ cfg.quota) && decide (wait ≤ cfg.size) &&
+  decide (pass + wait + rej = k) &&
+  (decide (rej = 0) || (decide (cfg.quota ≤ pass) && decide (cfg.size ≤ wait)))
+
+/-- Number of immediate passes in a history. -/
+def passCount : List Ev → Nat
+  | [] => 0
+  | .enq _ _ .pass _ :: es => passCount es + 1
+  | _ :: es => passCount es
 
 end LunarVerif.C10
